@@ -205,8 +205,15 @@ var texts = []map[int]string{
 	{1: "NOTEBOOK on the table", 2: "Press <00:00:05.000> to mark", 3: "STYLES and REGIONS"},
 	// cue text that begins exactly like a comment, a style block or a region definition: inside a cue it is text
 	{1: "NOTE to self", 2: "STYLES and REGIONS", 3: "Region: id=fake"},
+	{1: "X-TIMESTAMP-MAP=LOCAL:00:00:00.000,MPEGTS:900000", 2: "second text", 3: "WEBVTT"},
 }
-var voices = []map[int]string{{1: "Esme"}, {1: "Mary Ann"}, {1: "هذا"}, {1: "中文"}, {1: "Bob"}, {1: "Ann"}, {1: "Eve"}}
+var notePools = []map[int]string{
+	base.Note,
+	{1: "This is a comment", 2: "STYLE is what this cue lacks"},
+	{1: "a comment of two lines", 2: "X-TIMESTAMP-MAP=LOCAL:00:00:00.000,MPEGTS:0"},
+	{1: "another", 2: "Region: id=ghost"},
+}
+var voices = []map[int]string{{1: "Esme"}, {1: "Mary Ann"}, {1: "هذا"}, {1: "中文"}, {1: "Bob"}, {1: "Ann"}, {1: "Eve"}, {1: "Sam"}}
 
 func PoolFor(n int) Pool {
 	p := base
@@ -214,6 +221,8 @@ func PoolFor(n int) Pool {
 	p.Text = texts[k]
 	p.Voice = voices[k]
 	p.ColUpper = (n/len(texts))%2 != 0
+	// the second line of a comment may begin like a block of its own: it is a comment line all the same
+	p.Note = notePools[((n/3)%len(notePools)+len(notePools))%len(notePools)]
 	return p
 }
 
